@@ -17,6 +17,7 @@ package encrypt
 
 //@ func setValue(fv, newVal) (err)
 //@   assigns ev, elem:any
+//@   ensures never-copies: events("sys:deepcopy") == old(events("sys:deepcopy"))
 //@   ensures C09/only-settable-strings-and-bytes-are-set: (err == nil) <==> (ufbool("reflect.CanSet", fv) && (isStringValue(fv) || isBytesValue(fv)))
 //@   ensures C09/exactly-one-mutation-with-the-given-data: err == nil ==> ev_n == old(ev_n) + 1 && ev_kind(old(ev_n)) == "reflect:set" && ev_a(old(ev_n), 0) == fv && ev_a(old(ev_n), 1) == newVal
 //@   ensures C09/failure-mutates-nothing: err != nil ==> ev_n == old(ev_n)
@@ -54,7 +55,8 @@ package encrypt
 // "protected" below means: exactly one mutation of the target, recorded as trace event reflect:set (direct) or
 // call of pointerstructure.Set (tagged map value), with data produced by the configured operation.
 
-//@ type Filter guarded_by l: Wrapper, HmacSalt, HmacInfo, FilterOperationOverrides
+// FilterOperationOverrides is configuration: no library code writes it after construction (reads need no lock)
+//@ type Filter guarded_by l: Wrapper, HmacSalt, HmacInfo
 
 //@ iface wrapping.Wrapper.Encrypt(ctx, data, opt) (blob, err)
 //@   assigns ctxdone
@@ -65,6 +67,7 @@ package encrypt
 //@ func (*Filter).filterValue(ctx, fv, classificationTag, opt) (err)
 //@   requires ef != nil && held(ef.l) == 0
 //@   assigns ev, ctxdone, elem:any, elem:uint8, held, lockacq
+//@   ensures never-copies: events("sys:deepcopy") == old(events("sys:deepcopy"))
 //@   ensures C09/missing-tag-is-an-error: classificationTag == nil ==> err != nil && ev_n == old(ev_n)
 //@   ensures C09/public-and-explicit-no-operation-are-left-alone: classificationTag != nil && (classificationTag.Classification == PublicClassification || classificationTag.Operation == NoOperation) ==> err == nil && ev_n == old(ev_n)
 //@   ensures C09/failure-mutates-nothing: err != nil ==> events("reflect:set") == old(events("reflect:set")) && (events("sys:psset") == old(events("sys:psset")) || (ev_kind(ev_n - 1) == "sys:psset" && ev_a(ev_n - 1, 7) != 0))
@@ -73,6 +76,7 @@ package encrypt
 //@   ensures C09/nil-only-if-protected-or-nothing-to-protect: err == nil && len(opt) == 0 && classificationTag != nil && !(classificationTag.Classification == PublicClassification || classificationTag.Operation == NoOperation) && fv != nilValue() && ufbool("reflect.CanSet", strOrSelf(fv)) && !(isBytesValue(strOrSelf(fv)) && ufbool("reflect.IsNil", strOrSelf(fv))) ==> events("reflect:set") == old(events("reflect:set")) + 1
 //@   ensures C09/unsettable-classified-value-is-not-forwarded-in-clear: len(opt) == 0 && classificationTag != nil && !(classificationTag.Classification == PublicClassification || classificationTag.Operation == NoOperation) && fv != nilValue() && (isStringValue(strOrSelf(fv)) || isBytesValue(strOrSelf(fv))) && !ufbool("reflect.CanSet", strOrSelf(fv)) ==> err != nil
 //@   ensures C09/redaction-writes-the-marker: err == nil && len(opt) == 0 && classificationTag != nil && classificationTag.Classification != PublicClassification && (classificationTag.Operation == RedactOperation || !(classificationTag.Classification == SecretClassification || classificationTag.Classification == SensitiveClassification)) && events("reflect:set") == old(events("reflect:set")) + 1 ==> ev_kind(ev_n - 1) == "reflect:set" && ev_a(ev_n - 1, 1) == "[REDACTED]"
+//@   ensures locks-restored: unchanged("held")
 //@   ensures unlocked: held(ef.l) == 0
 
 //@ pure strOrSelf(fv reflect.Value) reflect.Value = (uf("reflect.Kind", fv) == 22 && uf("reflect.Kind", uf("reflect.Elem", fv)) == 24) ? uf("reflect.Elem", fv) : fv
@@ -80,11 +84,14 @@ package encrypt
 //@ func (*Filter).filterSlice(ctx, classificationTag, slice, opt) (err)
 //@   requires ef != nil && held(ef.l) == 0
 //@   assigns ev, ctxdone, elem:any, elem:uint8, held, lockacq
+//@   ensures never-copies: events("sys:deepcopy") == old(events("sys:deepcopy"))
 //@   ensures C09/missing-tag-is-an-error: classificationTag == nil ==> err != nil && ev_n == old(ev_n)
 //@   ensures C09/public-slices-are-left-alone: classificationTag != nil && classificationTag.Classification == PublicClassification ==> err == nil && ev_n == old(ev_n)
 //@   ensures C09/every-element-is-filtered-or-the-call-fails: err == nil && classificationTag != nil && classificationTag.Classification != PublicClassification && slice != nilValue() ==> callsTo("(*Filter).filterValue") == old(callsTo("(*Filter).filterValue")) + uf("reflect.Len", derefSlice(slice))
 //@   ensures C09/first-failing-element-fails-the-call: callsTo("(*Filter).filterValue") >= old(callsTo("(*Filter).filterValue"))
-//@   loop 1 invariant held(ef.l) == 0 && 0 <= i && callsTo("(*Filter).filterValue") == old(callsTo("(*Filter).filterValue")) + i && classificationTag != nil && classificationTag.Classification != PublicClassification && old(slice) != nilValue() && slice == derefSlice(old(slice)) && i <= uf("reflect.Len", slice)
+//@   ensures locks-restored: unchanged("held")
+//@   ensures unlocked: held(ef.l) == 0
+//@   loop 1 invariant events("sys:deepcopy") == old(events("sys:deepcopy")) && unchanged("held") && held(ef.l) == 0 && 0 <= i && callsTo("(*Filter).filterValue") == old(callsTo("(*Filter).filterValue")) + i && classificationTag != nil && classificationTag.Classification != PublicClassification && old(slice) != nilValue() && slice == derefSlice(old(slice)) && i <= uf("reflect.Len", slice)
 
 // ---- cryptographic operations (C16 kernel): results are uninterpreted functions of key material and data ----
 // Trace events: "call:wrapping.Wrapper.Encrypt" a0=wrapper a3=array of the plaintext; a5=blob a6/a7=error.
@@ -98,19 +105,132 @@ package encrypt
 //@ func (*Filter).encrypt(ctx, data, opt) (out, err)
 //@   requires ef != nil && held(ef.l) == 0
 //@   assigns ev, ctxdone, elem:any, held, lockacq
+//@   ensures never-copies: events("sys:deepcopy") == old(events("sys:deepcopy"))
 //@   ensures C16/missing-data-or-wrapper-is-an-error: (data == nil || (len(opt) == 0 && ef.Wrapper == nil)) ==> err != nil && out == ""
 //@   ensures C16/encrypts-under-the-filters-wrapper-read-under-its-lock: err == nil && len(opt) == 0 ==> calls("wrapping.Wrapper.Encrypt") == old(calls("wrapping.Wrapper.Encrypt")) + 1 && ev_kind(ev_n - 1) == "call:wrapping.Wrapper.Encrypt" && ev_a(ev_n - 1, 0) == valof(ef.Wrapper) && ev_a(ev_n - 1, 3) == arr(data)
 //@   ensures C16/failure-yields-no-ciphertext: err != nil ==> out == ""
 //@   ensures C16+C19/single-critical-section: data != nil ==> acquisitions(ef.l) == old(acquisitions(ef.l)) + 1
 //@   ensures C09/never-mutates: events("reflect:set") == old(events("reflect:set")) && events("sys:psset") == old(events("sys:psset"))
+//@   ensures locks-restored: unchanged("held")
 //@   ensures unlocked: held(ef.l) == 0
 
 //@ func (*Filter).hmacSha256(ctx, data, opt) (out, err)
 //@   requires ef != nil && held(ef.l) == 0
 //@   assigns ev, ctxdone, elem:any, elem:uint8, held, lockacq
+//@   ensures never-copies: events("sys:deepcopy") == old(events("sys:deepcopy"))
 //@   ensures C16/missing-data-or-wrapper-is-an-error: (data == nil || (len(opt) == 0 && ef.Wrapper == nil)) ==> err != nil && out == ""
 //@   ensures C16/failure-yields-no-digest: err != nil ==> out == ""
 //@   ensures C16+C19/single-critical-section: data != nil ==> acquisitions(ef.l) == old(acquisitions(ef.l)) + 1
 //@   ensures C09/never-mutates: events("reflect:set") == old(events("reflect:set")) && events("sys:psset") == old(events("sys:psset"))
+//@   ensures locks-restored: unchanged("held")
 //@   ensures unlocked: held(ef.l) == 0
 //@   atcall NewDerivedReader#1 C16/derives-the-key-from-the-salt-and-info-in-force: held(ef.l) == 2 && (len(opt) == 0 ==> w == ef.Wrapper && len(salt) == len(ef.HmacSalt) && len(info) == len(ef.HmacInfo) && (forall k int :: 0 <= k && k < len(salt) ==> salt[k] == ef.HmacSalt[k]) && (forall k int :: 0 <= k && k < len(info) ==> info[k] == ef.HmacInfo[k]))
+
+// ---- the per-event walk (thin contracts: locks, failure, who may mutate) ----
+// The reflection walk itself (which fields are reached) is outside the fragment: these contracts state only what
+// Process relies on; filterField/filterTaggable/processUnfiltered are assumed (trusted), see DESIGN.md.
+
+//@ func (*Filter).ignore(v) (ig)
+//@   assigns nothing
+//@   loop 1 invariant true
+
+//@ func (*Filter).copyFilterOperationOverrides() (cp)
+//@   requires ef != nil && held(ef.l) == 0
+//@   assigns held, lockacq, map:map[DataClassification]FilterOperation
+//@   ensures unlocked: held(ef.l) == 0
+//@   ensures C09/no-overrides-no-copy: ef.FilterOperationOverrides == nil ==> cp == nil
+//@   ensures C09/consistent-snapshot-of-the-overrides: ef.FilterOperationOverrides != nil ==> fresh(cp) && (forall c DataClassification :: ((c in cp) == (c in ef.FilterOperationOverrides)) && ((c in cp) ==> cp[c] == ef.FilterOperationOverrides[c]))
+//@   ensures oldobjects("map:map[DataClassification]FilterOperation")
+//@   ensures never-mutates: ev_n == old(ev_n)
+//@   loop 1 invariant oldobjects("map:map[DataClassification]FilterOperation") && held(ef.l) == 1 && fresh(cp) && cp != nil && (forall c DataClassification :: ((c in cp) == visited(c)) && (visited(c) ==> (c in ranged()) && (c in ef.FilterOperationOverrides) && cp[c] == ef.FilterOperationOverrides[c]))
+
+//@ func newTrackedMaps(tm) (maps, err)
+//@   assigns held, lockacq, elem:any, map:map[uintptr]*tMap
+//@   ensures len(tm) == 0 ==> err == nil && maps != nil && fresh(maps) && held(maps.l) == 0 && ev_n == old(ev_n) && oldlocks()
+//@   loop 1 invariant maps != nil && fresh(maps) && held(maps.l) == 0 && (len(tm) == 0 ==> ev_n == old(ev_n) && oldlocks())
+
+//@ func (*Filter).filterField(ctx, v, filterOverrides, tm, opt) (err)
+//@   trusted
+//@   requires ef != nil && held(ef.l) == 0
+//@   assigns ev, ctxdone, elem:any, elem:uint8, held, lockacq, map:map[uintptr]*tMap, tMap.filtered, tMap.filteredFields, map:map[string]struct{}
+//@   ensures never-copies: events("sys:deepcopy") == old(events("sys:deepcopy"))
+//@   ensures locks-restored: unchanged("held")
+//@   ensures unlocked: held(ef.l) == 0
+
+//@ func (*Filter).filterTaggable(ctx, t, filterOverrides, tm, opt) (err)
+//@   trusted
+//@   requires ef != nil && held(ef.l) == 0
+//@   assigns ev, ctxdone, elem:any, elem:uint8, held, lockacq, map:map[uintptr]*tMap, tMap.filtered, tMap.filteredFields, map:map[string]struct{}
+//@   ensures never-copies: events("sys:deepcopy") == old(events("sys:deepcopy"))
+//@   ensures locks-restored: unchanged("held")
+//@   ensures unlocked: held(ef.l) == 0
+
+//@ func (*trackedMaps).processUnfiltered(ctx, ef, filterOverrides, opt) (err)
+//@   trusted
+//@   requires ef != nil && held(ef.l) == 0
+//@   assigns ev, ctxdone, elem:any, elem:uint8, held, lockacq, map:map[uintptr]*tMap, tMap.filtered, tMap.filteredFields, map:map[string]struct{}
+//@   ensures never-copies: events("sys:deepcopy") == old(events("sys:deepcopy"))
+//@   ensures locks-restored: unchanged("held")
+//@   ensures unlocked: held(ef.l) == 0
+
+//@ func (*trackedMaps).trackMap(tm) (err)
+//@   requires maps != nil && held(maps.l) == 0
+//@   assigns held, lockacq, map:map[uintptr]*tMap, trackedMaps.tracked, elem:any
+//@   ensures ev_n == old(ev_n) && unchanged("held")
+//@   ensures held(maps.l) == 0
+
+//@ func NewEventWrapper(ctx, wrapper, eventId) (w, err)
+//@   trusted
+//@   assigns nothing
+//@   ensures C16/needs-a-wrapper-and-an-event-id: (wrapper == nil || eventId == "") ==> err != nil
+//@   ensures C16/derived-deterministically-from-the-base-wrapper-and-the-event-id: err == nil ==> w != nil && valof(w) == uf("eventwrapper", valof(wrapper), eventId)
+//@   ensures err != nil ==> w == nil
+
+// effective operation per classification: the override when present, else the default
+//@ pure effOp(m map[DataClassification]FilterOperation, c DataClassification) FilterOperation = (c in m) ? m[c] : ((c == SensitiveClassification) ? EncryptOperation : ((c == SecretClassification) ? RedactOperation : NoOperation))
+//@ pure nothingFiltered(m map[DataClassification]FilterOperation) bool = effOp(m, PublicClassification) == NoOperation && effOp(m, SensitiveClassification) == NoOperation && effOp(m, SecretClassification) == NoOperation
+
+//@ pure isClass(c DataClassification) bool = c == PublicClassification || c == SensitiveClassification || c == SecretClassification
+//@ pure defaultOp(c DataClassification) FilterOperation = (c == SensitiveClassification) ? EncryptOperation : ((c == SecretClassification) ? RedactOperation : NoOperation)
+//@ pure needsKey(op FilterOperation) bool = op == EncryptOperation || op == HmacSha256Operation
+//@ pure payloadValueOf(e *eventlogger.Event) reflect.Value = uf("reflect.ValueOf", tagof(e.Payload), valof(e.Payload))
+
+// Trace events: sys:deepcopy a0=source a5/a6=copy; reflect:set and sys:psset are the only mutations of payload data.
+//@ func (*Filter).Process(ctx, e) (out, err)
+//@   requires ef != nil && noLocksHeld()
+//@   ensures C09/missing-event-is-an-error: e == nil ==> err != nil
+//@   ensures C09/fails-closed-an-error-forwards-nothing: err != nil ==> out == nil
+//@   ensures C09+C16/a-rotation-payload-is-consumed-never-forwarded: e != nil && old(e.Payload != nil && !nothingFiltered(ef.FilterOperationOverrides) && tagImplements(tagof(e.Payload), "RotateWrapper")) ==> out == nil && err == nil
+//@   ensures C16+C19/rotation-is-one-exclusive-critical-section: e != nil && old(e.Payload != nil && !nothingFiltered(ef.FilterOperationOverrides) && tagImplements(tagof(e.Payload), "RotateWrapper")) ==> acquisitions(ef.l) == old(acquisitions(ef.l)) + 1 && events("sys:deepcopy") == old(events("sys:deepcopy"))
+//@   ensures C10/nil-payload-is-forwarded-unchanged: e != nil && old(e.Payload == nil) ==> out == e && err == nil && ev_n == old(ev_n)
+//@   ensures C10/all-operations-none-is-forwarded-unchanged: e != nil && old(e.Payload != nil && nothingFiltered(ef.FilterOperationOverrides)) ==> out == e && err == nil && ev_n == old(ev_n)
+//@   ensures C10/the-original-is-handed-back-only-when-nothing-is-filtered: out != nil && out == e ==> old(e.Payload == nil || nothingFiltered(ef.FilterOperationOverrides) || ufbool("reflect.IsZero", payloadValueOf(e)))
+//@   ensures C10/otherwise-the-forwarded-event-is-a-private-copy: out != nil && out != e ==> fresh(out) && events("sys:deepcopy") == old(events("sys:deepcopy")) + 1
+//@   ensures C10/never-mutates-without-a-copy: events("sys:deepcopy") == old(events("sys:deepcopy")) ==> events("reflect:set") == old(events("reflect:set")) && events("sys:psset") == old(events("sys:psset"))
+//@   ensures C09/a-needed-wrapper-that-is-missing-is-an-error: err == nil && out != nil && out != e && old(ef.Wrapper == nil) && !old(tagImplements(tagof(e.Payload), "EventWrapperInfo")) ==> !old(needsKey(effOp(ef.FilterOperationOverrides, PublicClassification))) && !old(needsKey(effOp(ef.FilterOperationOverrides, SensitiveClassification))) && !old(needsKey(effOp(ef.FilterOperationOverrides, SecretClassification)))
+//@   ensures C09/untagged-maps-are-swept-before-forwarding-unless-the-payload-type-is-ignored: out != nil && out != e ==> callsTo("(*trackedMaps).processUnfiltered") > old(callsTo("(*trackedMaps).processUnfiltered")) || (events("reflect:set") == old(events("reflect:set")) && events("sys:psset") == old(events("sys:psset")))
+//@   ensures unlocked: held(ef.l) == 0
+//@   loop 1 invariant L1: fresh(filterOps) && filterOps != nil && oldobjects("map:map[DataClassification]FilterOperation") && e == entry(e) && ev_n == old(ev_n) && held(ef.l) == 0 && unchanged("lockacq")
+//@   loop 1 invariant L1dom: forall c DataClassification :: {c in filterOps} (c in filterOps) == isClass(c)
+//@   loop 1 invariant L1val: forall c DataClassification :: {filterOps[c]} isClass(c) ==> filterOps[c] == (visited(c) ? old(effOp(ef.FilterOperationOverrides, c)) : defaultOp(c))
+//@   loop 1 invariant L1vis: forall c DataClassification :: {visited(c)} visited(c) ==> isClass(c)
+//@   loop 1 invariant L1flt: filtered <==> ((visited(PublicClassification) && old(effOp(ef.FilterOperationOverrides, PublicClassification)) != NoOperation) || (visited(SensitiveClassification) && old(effOp(ef.FilterOperationOverrides, SensitiveClassification)) != NoOperation) || (visited(SecretClassification) && old(effOp(ef.FilterOperationOverrides, SecretClassification)) != NoOperation))
+//@   loop 2 invariant L2: e == entry(e) && events("reflect:set") == old(events("reflect:set")) && events("sys:psset") == old(events("sys:psset")) && events("sys:deepcopy") == old(events("sys:deepcopy")) && callsTo("(*trackedMaps).processUnfiltered") == old(callsTo("(*trackedMaps).processUnfiltered")) && held(ef.l) == 0 && e != nil && old(e.Payload != nil && !nothingFiltered(ef.FilterOperationOverrides) && !tagImplements(tagof(e.Payload), "RotateWrapper"))
+//@   loop 2 invariant L2k: forall c DataClassification :: {visited(c)} visited(c) ==> !needsKey(filterOps[c])
+//@   cut before reflect.ValueOf@1 C10/nothing-is-mutated-before-the-copy: held(ef.l) == 0 && e != nil && e == entry(e) && events("reflect:set") == old(events("reflect:set")) && events("sys:psset") == old(events("sys:psset")) && events("sys:deepcopy") == old(events("sys:deepcopy")) && callsTo("(*trackedMaps).processUnfiltered") == old(callsTo("(*trackedMaps).processUnfiltered")) && old(e.Payload != nil && !nothingFiltered(ef.FilterOperationOverrides) && !tagImplements(tagof(e.Payload), "RotateWrapper")) && unchanged("eventlogger.Event.Payload")
+//@   cut before reflect.ValueOf@1 C09/a-needed-wrapper-was-checked-before-the-copy: old(ef.Wrapper == nil && !tagImplements(tagof(e.Payload), "EventWrapperInfo")) ==> !old(needsKey(effOp(ef.FilterOperationOverrides, PublicClassification))) && !old(needsKey(effOp(ef.FilterOperationOverrides, SensitiveClassification))) && !old(needsKey(effOp(ef.FilterOperationOverrides, SecretClassification)))
+//@   loop 3 invariant held(ef.l) == 0 && ef != nil && tm != nil && held(tm.l) == 0 && e != entry(e) && fresh(e) && events("sys:deepcopy") == old(events("sys:deepcopy")) + 1 && callsTo("(*trackedMaps).processUnfiltered") == old(callsTo("(*trackedMaps).processUnfiltered"))
+
+// Payload accessor methods are user code; assumed not to touch the filter or the trace (see DESIGN.md, assumptions).
+//@ iface RotateWrapper.Wrapper() (w)
+//@   assigns nothing
+//@ iface RotateWrapper.HmacSalt() (s)
+//@   assigns nothing
+//@ iface RotateWrapper.HmacInfo() (s)
+//@   assigns nothing
+//@ iface EventWrapperInfo.EventId() (id)
+//@   assigns nothing
+//@ iface EventWrapperInfo.HmacSalt() (s)
+//@   assigns nothing
+//@ iface EventWrapperInfo.HmacInfo() (s)
+//@   assigns nothing
